@@ -41,7 +41,9 @@ def run(tier):
         # all zones for the default options; the 8-way option sweep on a seeded half of the zones plus the historically tricky ones
         must = ['America/Los_Angeles', 'Europe/London', 'Asia/Jerusalem', 'America/Argentina/Buenos_Aires', 'Australia/Perth', 'Pacific/Fiji', 'Europe/Istanbul',
                 'Asia/Famagusta', 'Asia/Khandyga', 'Africa/Casablanca', 'America/Caracas', 'Pacific/Apia', 'Antarctica/Troll', 'Europe/Dublin', 'Asia/Tehran', 'America/Havana']
-        only = sorted(set(rnd.sample(names, len(names) // 2)) | {m for m in must if m in data['zones']})
+        # ... and every zone with an era boundary inside the range (the options only matter where eras and rules interact)
+        multi = {n for n, z in data['zones'].items() if sum(1 for e in z['eras'] if e['untilYear'] > 2000) > 1}
+        only = sorted(set(rnd.sample(names, len(names) // 3)) | {m for m in must if m in data['zones']} | multi)
     else:
         only = names
     # ---- instants: Python (8 option combinations) vs the C++ sweep vs the specification
